@@ -41,6 +41,7 @@ type Obligation struct {
 }
 
 type FnVerifier struct {
+	auditMissed   map[int]map[string]KeyInfo // loop ordinal -> heaps written in the body but not havocked at the head
 	goCount       int
 	goStmts       int // go statements met in the function under contract (and the helpers executed as part of it)
 	detached      map[ssa.Value]bool // results of slice-to-array-pointer conversions
@@ -118,6 +119,11 @@ type loopInfo struct {
 	names   map[string]ssa.Value // source names visible in invariants
 	mods    *ModSet
 	pre     *State // state on first arrival at the header (for sinceloop())
+	// audit of the loop frame: the heap terms right after the havoc at the head and the set that was
+	// havocked - whatever differs at a back edge must have been in that set
+	headHeaps map[string]string
+	headEpoch int
+	headMods  *ModSet
 }
 
 type outOfSubset struct{ msg string }
@@ -806,6 +812,17 @@ func (fr *Frame) enterLoop(b *ssa.BasicBlock, li *loopInfo, st *State) *State {
 	mods := li.mods
 	// the ghost counters of tracked calls (opt track: ncalls / lastarg / lastres) change in a loop
 	// that makes such a call
+	if fr.transparent {
+		if ex := v.eng.loopExtra[v.fn.String()][li.ordinal]; len(ex) > 0 {
+			m2 := newModSet()
+			m2.union(mods)
+			for _, ki := range ex {
+				m2.add(ki)
+			}
+			mods = m2
+			v.smt.note(fmt.Sprintf("loop %d: havoc set extended by the loop-frame audit (engine-made snapshots / appends written in the body)", li.ordinal))
+		}
+	}
 	if tk := fr.loopTrackedKeys(li); len(tk) > 0 {
 		m2 := newModSet()
 		m2.union(mods)
@@ -826,6 +843,12 @@ func (fr *Frame) enterLoop(b *ssa.BasicBlock, li *loopInfo, st *State) *State {
 		v.havocked = append(v.havocked, fmt.Sprintf("loop %d of %s (ALL: %s)", li.ordinal, fr.fn.Name(), strings.Join(mods.Why, "; ")))
 	}
 	v.havocKeys(st, mods)
+	li.headHeaps = map[string]string{}
+	for k, t := range st.heaps {
+		li.headHeaps[k] = t
+	}
+	li.headEpoch = st.epoch
+	li.headMods = v.effectiveMods(mods)
 	if mods.All {
 		// (a havoc of everything keeps the function's own counters: callees cannot change them - but
 		// this loop does)
@@ -922,6 +945,56 @@ func (fr *Frame) backEdge(p *ssa.BasicBlock, h *ssa.BasicBlock, st *State, cond 
 	for i, phi := range phis {
 		saved[phi] = fr.vals[phi]
 		fr.vals[phi] = newVals[i]
+	}
+	// audit: a heap (ghost or real) whose term at the end of the body differs from its term at the
+	// loop head was written in the body, so it must have been havocked at the head; if it was not,
+	// the generic iteration started from a state that is too specific and what follows the loop is
+	// only proved for some iteration counts - an error of the generator, reported as such
+	if li.headMods != nil && !li.headMods.All && st.epoch == li.headEpoch {
+		var missed []string
+		for k, t := range st.heaps {
+			if k == allocKey {
+				continue
+			}
+			if _, in := li.headMods.Keys[k]; in {
+				continue
+			}
+			if ht, ok := li.headHeaps[k]; ok && ht != t {
+				missed = append(missed, k)
+			} else if !ok {
+				if strings.HasPrefix(k, "GH!lastarg!") || strings.HasPrefix(k, "GH!lastres!") {
+					// first set inside the body: at the head it is the entry symbol, which nothing constrains
+					continue
+				}
+				if _, reg := v.reg.sort[k]; reg && t != fmt.Sprintf("%s@e%d", k, st.epoch) {
+					missed = append(missed, k)
+				}
+			}
+		}
+		if len(missed) > 0 {
+			sort.Strings(missed)
+			if v.auditMissed == nil {
+				v.auditMissed = map[int]map[string]KeyInfo{}
+			}
+			if v.auditMissed[li.ordinal] == nil {
+				v.auditMissed[li.ordinal] = map[string]KeyInfo{}
+			}
+			for _, k := range missed {
+				ki := KeyInfo{Key: k, Dims: v.reg.dims[k], CellT: v.reg.cellT[k]}
+				if strings.HasPrefix(k, "GH!") {
+					ki.Ghost = v.reg.sort[k]
+				}
+				if mt, ok := v.mapTypes[k]; ok {
+					ki.Map = mt
+				}
+				v.auditMissed[li.ordinal][k] = ki
+			}
+			if fr.transparent {
+				v.errs = append(v.errs, fmt.Sprintf("loop %d: state written in the body but not havocked at the head: %s", li.ordinal, strings.Join(missed, " ")))
+			} else {
+				v.errs = append(v.errs, fmt.Sprintf("loop %d of inlined %s: state written in the body but not havocked at the head: %s", li.ordinal, fr.fn.Name(), strings.Join(missed, " ")))
+			}
+		}
 	}
 	st2 := st.clone()
 	st2.reach = cond
